@@ -324,9 +324,181 @@ type C18EncCase struct {
 	MaxLits int    `json:"max_lits"`
 	Level   int    `json:"level"`
 	Ctor    string `json:"ctor"`
+	// Mode "skew": copy lengths and distances follow geometric frequency ladders (both Huffman trees
+	// get a wide spread of code lengths, the rarest symbols cost 30..48 bits per token), with an
+	// optional burst of long far copies after Pad extra literals and one final copy that is the only
+	// user of its length and distance symbols.
+	Mode   string `json:"mode,omitempty"`
+	Ratio  int    `json:"ratio,omitempty"` // ladder ratio in percent (150..230)
+	Init   int    `json:"init,omitempty"`
+	DSym0  int    `json:"dsym0,omitempty"` // lowest distance symbol of the ladder
+	NSym   int    `json:"nsym,omitempty"`
+	Burst  int    `json:"burst,omitempty"`
+	Units  int    `json:"units,omitempty"` // approximate number of ladder copies (0: as many as the ratio gives)
+	Every  int    `json:"every,omitempty"` // a further burst after every so many ladder copies
+	Pad    int    `json:"pad,omitempty"`
+	Pool   int    `json:"pool,omitempty"`
+	Filler int    `json:"filler,omitempty"`
+	ULit   int    `json:"ulit,omitempty"`
+	Final  bool   `json:"final,omitempty"`
+	AtEnd  bool   `json:"at_end,omitempty"` // the single burst comes after all ladder copies (so Pad alone decides where it lands in the output)
+}
+
+var distBase = [31]int{1, 2, 3, 4, 5, 7, 9, 13, 17, 25, 33, 49, 65, 97, 129, 193, 257, 385, 513, 769, 1025, 1537, 2049, 3073, 4097, 6145, 8193, 12289, 16385, 24577, 32769}
+
+func (c C18EncCase) skewData() []byte {
+	x := c.Seed*0x9E3779B97F4A7C15 + 7
+	next := func() uint64 {
+		x ^= x << 13
+		x ^= x >> 7
+		x ^= x << 17
+		return x
+	}
+	intn := func(n int) int { return int(next() % uint64(n)) }
+	var b []byte
+	var fresh []int
+	used := map[int]bool{}
+	lit := func(n int) {
+		for i := 0; i < n; i++ {
+			if i+1 < n {
+				fresh = append(fresh, len(b))
+			}
+			b = append(b, byte(next()>>24))
+		}
+	}
+	copyFrom := func(d, l int) {
+		if d > len(b) {
+			d = len(b)
+		}
+		for i := 0; i < l; i++ {
+			b = append(b, b[len(b)-d])
+		}
+	}
+	// pick a source not used before, at a distance inside [lo,hi] (so the match finder sees one candidate)
+	pick := func(lo, hi int) int {
+		p0 := len(b)
+		i := len(fresh) - 1
+		for i >= 0 && p0-fresh[i] < lo {
+			i--
+		}
+		var cand []int
+		for ; i >= 0 && p0-fresh[i] <= hi && len(cand) < 64; i-- {
+			if !used[fresh[i]] {
+				cand = append(cand, fresh[i])
+			}
+		}
+		if len(cand) == 0 {
+			return lo + intn(hi-lo+1)
+		}
+		s := cand[intn(len(cand))]
+		used[s] = true
+		return p0 - s
+	}
+	type unit struct{ sym, l int }
+	var units []unit
+	cnt := 1.0
+	ratio := float64(c.Ratio) / 100
+	if c.Units > 0 {
+		// scale the ladder so that it has about Units copies in all (the rarest symbol at least once)
+		total, w := 0.0, 1.0
+		for k := 0; k < c.NSym; k++ {
+			total += w
+			w *= ratio
+		}
+		if f := float64(c.Units) / total; f > 1 {
+			cnt = f
+		}
+	}
+	for s := c.NSym - 1; s >= 0; s-- {
+		for i, n := 0, int(cnt+0.5); i < n; i++ {
+			units = append(units, unit{c.DSym0 + s, 4})
+		}
+		cnt *= ratio
+		if len(units) > 12000 {
+			break
+		}
+	}
+	lens := []int{17, 15, 13, 11, 10, 9, 8, 7, 6, 5}
+	cnt = 1.0
+	for k, li := len(units)-1, 0; li < len(lens) && k >= 0; li++ {
+		for j, n := 0, int(cnt+0.5); j < n && k >= 0; j++ {
+			units[k].l = lens[li]
+			k -= 3
+		}
+		cnt *= ratio
+	}
+	for i := len(units) - 1; i > 0; i-- {
+		j := intn(i + 1)
+		units[i], units[j] = units[j], units[i]
+	}
+	lit(c.Init)
+	burstAt := len(units)
+	if c.Burst > 0 && !c.AtEnd {
+		burstAt = intn(len(units) + 1)
+	}
+	lastPool := -1
+	farBurst := func() {
+		// copies from a stretch of random bytes laid down at the previous burst, 8..30 KiB back (12 or 13
+		// extra distance bits each), every copy from its own slice of that stretch
+		prev := lastPool
+		if d := len(b) - prev; prev >= 0 && d >= 8200 && d+258 <= 32768 {
+			lit(c.Pad % 7)
+			for k := 0; k < c.Burst; k++ {
+				l := 131 + intn(127)
+				copyFrom(len(b)-(prev+k*258+intn(258-l)), l)
+			}
+			lit(2)
+		}
+		lastPool = len(b)
+		lit(c.Burst * 258)
+	}
+	burst := func() {
+		if c.Every > 0 {
+			farBurst()
+			return
+		}
+		poolStart := len(b)
+		lit(c.Pool)
+		lit(c.Filler)
+		lit(c.Pad)
+		for k := 0; k < c.Burst; k++ {
+			l := 131 + intn(127)
+			if c.Pool > l+8 {
+				copyFrom(len(b)-(poolStart+intn(c.Pool-l-8)), l)
+			}
+		}
+		lit(2)
+	}
+	for i, u := range units {
+		if i == burstAt || (c.Every > 0 && c.Burst > 0 && i%c.Every == c.Every-1) {
+			burst()
+		}
+		if len(b) > 120000 {
+			break
+		}
+		copyFrom(pick(distBase[u.sym], distBase[u.sym+1]-1), u.l)
+		lit(c.ULit)
+	}
+	if burstAt == len(units) && c.Burst > 0 {
+		burst()
+	}
+	if c.Final {
+		// the only user of its length symbol and of a distance symbol above the ladder
+		s := c.DSym0 + c.NSym
+		if s > 29 {
+			s = 29
+		}
+		copyFrom(pick(distBase[s], distBase[s+1]-1), 131+intn(127))
+	} else {
+		lit(10)
+	}
+	return b
 }
 
 func (c C18EncCase) data() []byte {
+	if c.Mode == "skew" {
+		return c.skewData()
+	}
 	x := c.Seed*0x9E3779B97F4A7C15 + 99
 	next := func() uint64 {
 		x ^= x << 13
@@ -382,6 +554,33 @@ func TestC18Enc(t *testing.T) {
 			Level:   rapid.SampledFrom([]int{1, 2}).Draw(t, "level"),
 			Ctor:    rapid.SampledFrom([]string{"new", "new", "4k"}).Draw(t, "ctor"),
 		}
+		label := "token-encoder-stress"
+		if rapid.IntRange(0, 2).Draw(t, "skew") > 0 {
+			label = "token-encoder-skewed-codes"
+			c.Mode, c.Size, c.MaxLen, c.MinBack, c.MaxLits = "skew", 0, 0, 0, 0
+			c.Level = rapid.SampledFrom([]int{-1, 1, 2}).Draw(t, "slevel")
+			c.Ratio = rapid.IntRange(150, 230).Draw(t, "ratio")
+			c.NSym = rapid.IntRange(8, 16).Draw(t, "nsym")
+			c.DSym0 = rapid.IntRange(2, 29-c.NSym).Draw(t, "dsym0")
+			c.Init = rapid.SampledFrom([]int{600, 2000, 3200, 8000}).Draw(t, "init")
+			if need := distBase[c.DSym0+c.NSym] + 500; c.Init < need && need < 30000 {
+				c.Init = need
+			}
+			c.ULit = rapid.IntRange(0, 3).Draw(t, "ulit")
+			c.Units = rapid.SampledFrom([]int{0, 2000, 4000, 6000, 9000}).Draw(t, "units")
+			c.Final = rapid.Bool().Draw(t, "final")
+			if rapid.Bool().Draw(t, "hasburst") {
+				c.Burst = rapid.SampledFrom([]int{8, 16, 24, 64, 64, 150}).Draw(t, "burst")
+				c.Pool = rapid.SampledFrom([]int{1000, 3000, 3000, 9000}).Draw(t, "pool")
+				c.Filler = rapid.SampledFrom([]int{0, 4200, 4200, 12000, 20000}).Draw(t, "filler")
+				c.Pad = rapid.IntRange(0, 400).Draw(t, "pad")
+				c.Every = rapid.SampledFrom([]int{0, 300, 700, 700, 1500}).Draw(t, "every")
+				if c.Every > 0 {
+					c.Pool, c.Filler = 1000, rapid.SampledFrom([]int{0, 0, 2000}).Draw(t, "filler2")
+					c.Burst = rapid.SampledFrom([]int{16, 24, 32, 64}).Draw(t, "burst2")
+				}
+			}
+		}
 		cc := C18Case{Enc: &c}
 		done := begin("C18", cc)
 		defer done()
@@ -389,6 +588,44 @@ func TestC18Enc(t *testing.T) {
 			saveLast("C18", cc, err)
 			t.Fatalf("C18 violated (token-encoder stress, level %d): %v", archLevel, err)
 		}
-		stats.Record("C18", stats.Digest(c), true, []string{"token-encoder-stress"}, func() any { return cc })
+		stats.Record("C18", stats.Digest(c), true, []string{label}, func() any { return cc })
 	})
+}
+
+// TestC18EncSweep slides one burst of the most expensive tokens (long copies from far back, whose
+// symbols are rare in the block: 33..40 bits each) across the point where the encoder's output
+// buffer fills, one to three literal bytes at a time over a whole buffer period, so that the
+// buffer-full exits in the middle of a group of long tokens are taken at every phase.
+func TestC18EncSweep(t *testing.T) {
+	step := 5
+	if thorough() {
+		step = 1
+	}
+	n := 0
+	variants := []C18EncCase{
+		{Seed: 8, Ctor: "new", Mode: "skew", Ratio: 100, NSym: 9, DSym0: 8, Units: 6000, Init: 600, ULit: 2, Burst: 64, Pool: 3000, Filler: 4200, AtEnd: true},
+		{Seed: 9, Ctor: "new", Mode: "skew", Ratio: 170, NSym: 12, DSym0: 6, Units: 4000, Init: 3200, ULit: 2, Burst: 64, Pool: 3000, Filler: 9000, AtEnd: true},
+	}
+	for vi, v := range variants {
+		if vi > 0 && !thorough() {
+			break
+		}
+		for _, lvl := range []int{-1, 1} {
+			for pad := 0; pad <= 8400; pad += step {
+				c := v
+				c.Level, c.Pad = lvl, pad
+				cc := C18Case{Enc: &c}
+				done := begin("C18", cc)
+				err := checkC18Enc(c)
+				done()
+				if err != nil {
+					saveLast("C18", cc, err)
+					t.Fatalf("C18 violated (burst of long tokens slid across the output-buffer boundary, pad %d, level %d): %v", pad, archLevel, err)
+				}
+				stats.Record("C18", stats.Digest(c), true, []string{"long-token-burst-sweep"}, func() any { return cc })
+				n++
+			}
+		}
+	}
+	stats.Exhaustive("C18", fmt.Sprintf("a burst of 64 long far copies (33..40 bits per token) preceded by every number of padding literals from 0 to 8400 in steps of %d (a whole output-buffer period)", step), n)
 }
